@@ -21,7 +21,7 @@ CHECKS = {
  "C06": (MC, "6/C06", "TLC: Candidates.tla (transcription of candidates.rs) proved exact on all candidate pairs of a bounded domain; every pair replayed through the real intersect/normalize/exclude/contains and judged by TLC",
          "TLC enumerates ~194 candidates per domain (every bound combination, null inclusion, singles, multiples, impossible, all) over three concretisations (signed, mixed signed/unsigned beyond i64::MAX, strings), "
          "proves the set-exactness laws for the transcription on all pairs x probes, and every pair is executed by the real functions through the __verif hooks; TLC judges membership of every probe in every result.",
-         "Bounded to a 4-point ordered domain + null per concretisation; trusts the hook wrappers (thin pub fns) and TLC."),
+         "Bounded to a 4-point ordered domain + null per concretisation for the code; the range arithmetic of the transcription is additionally proved exact for all integers by TLAPS (spec/RangeLaws.tla, 6 obligations, status in the evidence file). Trusts the hook wrappers (thin pub fns), TLC and the SMT back end."),
  "C07": (MC, "6/C07", "TLC: operator laws on Values.tla over the bounded value universe; every typed (operator, left, right) driven through the real engine's public filter path (variable and tag arguments) and judged by TLC via Sem",
          "TLC checks complement / null / numeric-order / partition laws of FilterOp on the model, dumps the universe, and every operand pair the frontend's typing admits is decided by the real engine through real queries "
          "(variable path with its precompiled regex, tag path), the passing set being compared with Values!FilterOp.",
